@@ -5,6 +5,7 @@
 //            [--tier quick|thorough] [--replay file]
 #include <cmath>
 #include <iostream>
+#include <limits>
 #include <memory>
 #include <unistd.h>
 
@@ -244,10 +245,17 @@ static Res c03_predicate(const Cfg & c, const bxdecay0::event & e, const G & g)
     double ts = 0;
     if (c.mode == 10) ts = ps.size() > 0 ? kin(ps[0]) : 0;
     else ts = (ps.size() > 1) ? kin(ps[0]) + kin(ps[1]) : 0;
-    if (ts < c.emin - 1e-6 || ts > c.emax + 1e-6) fail("window", "lepton kinetic sum " + jnum(ts) + " outside window [" + jnum(c.emin) + "," + jnum(c.emax) + "]");
+    // a bound that is not set (NaN) does not constrain (one-sided windows are part of the API: each bound is applied on its own)
+    if ((!std::isnan(c.emin) && ts < c.emin - 1e-6) || (!std::isnan(c.emax) && ts > c.emax + 1e-6)) fail("window", "lepton kinetic sum " + jnum(ts) + " outside window [" + jnum(c.emin) + "," + jnum(c.emax) + "]");
   }
   double ta = g.get_to_all_events();
   if (!(ta >= 1.0 - 1e-9)) fail("toall<1", "toallevents=" + jnum(ta) + " < 1");
+  if (c.win && window_mode(c.mode) && c.mode != 10) {
+    // a window that excludes a tenth or more of the energy range must report a ratio above 1
+    auto itq = REF_DBD.find(c.name); double e0 = itq->second.Q - itq->second.levelE[c.level] / 1000.0; if (itq->second.Z < 0) e0 -= 4 * EMASS;
+    double lo = std::isnan(c.emin) ? 0.0 : c.emin, hi = std::isnan(c.emax) ? e0 : std::min(c.emax, e0);
+    if ((hi - lo) < 0.9 * e0 && !(ta > 1.0)) fail("toall==1-with-window", "toallevents=" + jnum(ta) + " although the window [" + jnum(c.emin) + "," + jnum(c.emax) + "] excludes part of the range (e0=" + jnum(e0) + ")");
+  }
   if (!c.win && ta != 1.0 && !window_mode(c.mode)) fail("toall!=1", "toallevents=" + jnum(ta) + " for a mode without window");
   return r;
 }
@@ -424,14 +432,16 @@ static int run_c03_c04(Ctx & cx, const Args & a)
       if (c.mode == 10) e0 = it->second.Q - it->second.levelE[c.level] / 1000.0 - it->second.EK[c.level] - 2 * EMASS;
       if (e0 > 0.06) {
         Rng r(mix(seed, my * 97 + 11));
-        int nw = thorough ? 3 : 1;
+        int nw = thorough ? 5 : 2;
         for (int w = 0; w < nw; w++) {
-          Cfg cw = c; cw.win = true; int wc = thorough ? w : r.range(0, 2);
+          Cfg cw = c; cw.win = true; int wc = thorough ? w : (w == 0 ? r.range(0, 2) : r.range(3, 4));
           if (wc == 0) { cw.emin = std::round(r.uniform(0.05, 0.45) * e0 * 1000) / 1000; cw.emax = std::round(r.uniform(0.55, 0.95) * e0 * 1000) / 1000; }
           else if (wc == 1) { cw.emin = 0.0; cw.emax = 0.02 + std::round(r.uniform(0.01, 0.04) * 1000) / 1000; }
-          else { cw.emin = std::round((e0 - 0.02 - r.uniform(0, 0.1) * e0) * 1000) / 1000; cw.emax = std::round((e0 + 0.5) * 1000) / 1000; }
-          static const char * wn[] = {"interior", "low-sliver", "high-sliver"};
-          if (cw.emin < cw.emax) run_config(cx, cw, seed, nev, is04, wn[wc]);
+          else if (wc == 2) { cw.emin = std::round((e0 - 0.02 - r.uniform(0, 0.1) * e0) * 1000) / 1000; cw.emax = std::round((e0 + 0.5) * 1000) / 1000; }
+          else if (wc == 3) { cw.emin = std::round(r.uniform(0.2, 0.7) * e0 * 1000) / 1000; cw.emax = std::numeric_limits<double>::quiet_NaN(); } // lower bound only
+          else { cw.emin = std::numeric_limits<double>::quiet_NaN(); cw.emax = std::round(r.uniform(0.3, 0.8) * e0 * 1000) / 1000; }          // upper bound only
+          static const char * wn[] = {"interior", "low-sliver", "high-sliver", "emin-only", "emax-only"};
+          if (wc >= 3 || cw.emin < cw.emax) run_config(cx, cw, seed, nev, is04, wn[wc]);
         }
         if (!is04 && (thorough || h % 4 == 0)) run_nested(cx, c, seed);
       }
